@@ -119,6 +119,11 @@ def datatype_escape(ctx):
                     n += 1
                     ctx.analysed(f)
                     fresh = isinstance(v, ast.Call) and (call_attr(v) == 'copy' or (dotted(v.func) or '').endswith('Type') or dotted(v.func) in ('TupleOf', 'ArrayOf', 'StructOf'))
+                    if not fresh and isinstance(v, ast.Name):
+                        # `datatype = datatype.copy()` + `self.datatype = datatype`: every definition of the name that reaches the store is a copy
+                        rd_ = ReachingDefs(CFG(f.node, m, f.module), f.node)
+                        oo = rd_.origins_at(s, v)
+                        fresh = bool(oo) and all(isinstance(o, ast.Call) and call_attr(o) == 'copy' for o in oo)
                     for a in ancestors(s):
                         if isinstance(a, ast.If) and isinstance(a.test, ast.BoolOp) and isinstance(a.test.op, ast.And):
                             extra = [src(x) for x in a.test.values if src(x) not in ("'datatype' in self.propertyValues", 'self.hasDatatype()', 'datatype is not None')]
@@ -621,6 +626,24 @@ def given_datatype_object_is_not_modified(ctx):
     inits = [c for c in calls_in(f.node) if call_attr(c) == 'init' and dotted(c.func.value) == 'self' and c.args and kw and kw in names_in(c.args[0])]
     if not stores or not inits:
         raise AnchorMissing('self.datatype = ... / self.init(kwds) not found in Parameter.__init__')
+    # a local holding the keywords that are no parameter properties (`dtkeys = self._datatype_keys(kwds)` /
+    # `[k for k in kwds if k not in self.propertyDict]`): its truth is the same fact
+    dtk = set()
+    for x in body_walk(f.node):
+        if isinstance(x, ast.Assign) and len(x.targets) == 1 and isinstance(x.targets[0], ast.Name):
+            val = x.value
+            if isinstance(val, ast.Call) and isinstance(val.func, ast.Attribute) and dotted(val.func.value) == 'self' and m.has_method(roles.PARAMETER, val.func.attr):
+                h = m.method(roles.PARAMETER, val.func.attr)
+                rr = [r.value for r in body_walk(h.node) if isinstance(r, ast.Return) and r.value is not None]
+                val = rr[0] if len(rr) == 1 else None
+            if isinstance(val, (ast.ListComp, ast.SetComp, ast.GeneratorExp)) and any(
+                    isinstance(c, ast.Compare) and len(c.ops) == 1 and isinstance(c.ops[0], ast.NotIn) and 'propertyDict' in src(c.comparators[0])
+                    for g in val.generators for c in g.ifs) and isinstance(val, (ast.ListComp, ast.SetComp)):
+                dtk.add(x.targets[0].id)
+    base_fact = globals()['_foreign_keys_fact']
+
+    def _foreign_keys_fact(a, tv):      # noqa: F811  (extends the module level fact inside this rule)
+        return base_fact(a, tv) or (isinstance(a, ast.Name) and a.id in dtk and tv)
     foreign = sides_with_fact(cfg, _foreign_keys_fact)
     for t, v, st in stores:
         oo = rd.origins_at(st, v)
